@@ -101,13 +101,41 @@ def resolve(qname):
     raise ImportError(qname)
 
 
+def _bind_method(contract, func):
+    """methods need a receiver: a bare probe instance is enough for the methods whose contract does not read the state of
+    `self`; the others have no small-scope generator (the check then reports the failed obligation without an input)"""
+    import inspect
+    try:
+        params = list(inspect.signature(func).parameters)
+    except (TypeError, ValueError):
+        return func
+    if not params or params[0] != "self":
+        return func
+    clauses = " ".join(str(c_[1] if isinstance(c_, tuple) else c_) for c_ in list(contract.requires) + list(contract.ensures))
+    if "self." in clauses or "self)" in clauses or "self," in clauses:
+        raise NotImplementedError("the contract reads the state of self")
+    from pyvolutionary.abstract import OptimizationAbstract
+    owner = contract.qname.rsplit(".", 2)[-2]
+    if owner != "OptimizationAbstract":
+        raise NotImplementedError("no probe receiver for " + owner)
+
+    class _Probe(OptimizationAbstract):
+        def optimization_step(self):
+            pass
+
+        def set_config_parameters(self, parameters):
+            pass
+    return getattr(_Probe(), contract.qname.rsplit(".", 1)[-1])
+
+
 def search(contract, budget_s=6.0, max_cases=4000, seed=0):
     """enumerate small inputs of the contract's parameter types, run the real function under the run-time contract;
     returns (witness dict | None, stats)"""
     try:
         func, g = resolve(contract.qname)
+        func = _bind_method(contract, func)
     except Exception as ex:  # noqa
-        return None, {"error": f"cannot import {contract.qname}: {ex}", "cases": 0}
+        return None, {"error": f"cannot import / bind {contract.qname}: {ex}", "cases": 0}
     names = list(contract.params)
     types = [parse_type(contract.params[n]) for n in names]
     try:
@@ -162,6 +190,7 @@ def replay(w):
     from .contract import REG
     c = REG.get(w["function"])
     func, g = resolve(w["function"])
+    func = _bind_method(c, func)
     names = list(w["recipe"])
     args = {n: build(parse_type(w["param_types"][n]), w["recipe"][n]) for n in names}
     status, det = monitor_call(c, func, args, g)
